@@ -172,13 +172,15 @@ def run(ctx):
         ctx.check(any(common.dominated_by_edge(g, node, c, 'T') for c in conds), 'X2',
                   'a given IV is never replaced by a fresh one', key=('X2', 'iv-overwritten'), site=ctx.site(mi, n))
     rt = ctx.func('ikesa.IkeSa.check_retransmission_timer')
-    rets = [n for n in walk_no_nested(rt.node) if isinstance(n, ast.Return) and n.value is not None
-            and not (isinstance(n.value, ast.Constant) and n.value.value is None)]
+    from ..sval import NONE as _NONE0, strip_ids as _sid0
+    from .. import tq as _tq0
+    _RT0 = ctx.sval(rt)
+    rets = [(pc, _sid0(t), node) for pc, t, node in _RT0.returns if t != _NONE0]
     ctx.floor('the retransmitting return of check_retransmission_timer', len(rets), 1, rule='X2')
-    for r in rets:
-        ctx.check(src(r.value) == 'self.request.to_bytes()', 'X2',
-                  'the timer re-serialises the retained request (`%s`)' % src(r.value),
-                  key=('X2', 'timer-returns', src(r.value)), site=ctx.site(rt, r))
+    for pc, t, node in rets:
+        ctx.check(_tq0.is_call(t) and isinstance(t[1], str) and t[1].endswith('to_bytes') and t[2] == ('attr', ('param', 'self'), 'request')
+                  and not t[3], 'X2', 'the timer re-serialises the retained request (`%s`)' % _tq0.text(t, 60),
+                  key=('X2', 'timer-returns', _tq0.text(t, 40)), site=ctx.site(rt, node))
 
     # ---------------------------------------------------------------- X3
     M = prog.const_eval(ikesa.lookup_attr('MAX_RETRANSMISSIONS'), ikesa.module, ikesa) \
@@ -217,41 +219,43 @@ def run(ctx):
                 and r.value.func.attr == '_send_request'
             ctx.check(ok, 'X3', '%s emits a request only through _send_request' % name,
                       key=('X3', name, 'emit-without-arming', src(r.value)[:40]), site=ctx.site(fi, r))
-    # budget: interpret tests on self.retransmissions over its values
+    # budget: the conditions under which the timer retransmits / gives up, evaluated for every value of the retry counter (by value
+    # terms: guard clauses, nesting, a local holding the counter or the budget all give the same atoms)
     grt = esc.add_exception_edges(rt)
-    conds = {}
-    for n in grt.nodes:
-        if n.kind == 'cond' and isinstance(n.ast, ast.Compare) and len(n.ast.ops) == 1:
-            l, r_ = n.ast.left, n.ast.comparators[0]
-            if src(l) == 'self.retransmissions' or src(r_) == 'self.retransmissions':
-                flip = src(r_) == 'self.retransmissions'
-                other = l if flip else r_
-                try:
-                    c = prog.const_eval(other, rt.module, rt.cls)
-                except Exception:
-                    continue
-                op = type(n.ast.ops[0])
-                fn = {ast.GtE: lambda a, b: a >= b, ast.Gt: lambda a, b: a > b, ast.Lt: lambda a, b: a < b,
-                      ast.LtE: lambda a, b: a <= b, ast.Eq: lambda a, b: a == b, ast.NotEq: lambda a, b: a != b}.get(op)
-                if fn is None:
-                    continue
-                conds[n.id] = (lambda v, fn=fn, c=c, flip=flip: fn(c, v) if flip else fn(v, c))
-    ctx.check(bool(conds), 'X3', 'the retransmission timer tests the retry counter against a constant budget',
-              key=('X3', 'no-budget-test'), site=ctx.site(rt, rt.node))
+    from .. import tq as _tqb
+    from ..sval import strip_ids as _sidb, NONE as _NONEb
+    _RTb = ctx.sval(rt)
+    _cntb = ('attr', ('param', 'self'), 'retransmissions')
     retn = [n for n in grt.nodes if n.kind == 'stmt' and isinstance(n.ast, ast.Return) and n.ast.value is not None
-            and 'to_bytes' in src(n.ast.value)]
-    deln = [n for n in grt.nodes if self_store(n, rt) == 'state']
+            and not (isinstance(n.ast.value, ast.Constant) and n.ast.value.value is None)]
+    send_pcs = [_sidb(tuple(pc)) for pc, t, _ in _RTb.returns if t != _NONEb]
+    giveup_pcs = [_sidb(tuple(pc)) for tg, v, pc, st, _ in _RTb.stores if _sidb(tg) == ('attr', ('param', 'self'), 'state')
+                  and _tqb.text(v).endswith('State.DELETED')]
+    tested = [a for pc in send_pcs + giveup_pcs for a in pc if _tqb.contains(a[0], _cntb)]
+    ctx.check(bool(tested), 'X3', 'the retransmission timer tests the retry counter against a constant budget',
+              key=('X3', 'no-budget-test'), site=ctx.site(rt, rt.node))
+
+    def possible(pc, v):
+        """no condition on the retry counter on this path is false when the counter is v"""
+        def leaf(t):
+            if _sidb(t) == _cntb:
+                return v
+            raise _tqb.NoValue()
+        for a in pc:
+            if not _tqb.contains(a[0], _cntb):
+                continue
+            try:
+                if bool(_tqb.teval(a[0], leaf, _RTb)) != a[1]:
+                    return False
+            except (_tqb.NoValue, Exception):
+                continue
+        return True
     allowed = []
     for v in range(0, M + 6):
-        def edge_ok(n, lab, m, v=v):
-            if n.id in conds and lab in ('T', 'F'):
-                return conds[n.id](v) == (lab == 'T')
-            return True
-        reach_v = grt.reach_filtered([grt.entry], edge_ok)
-        if any(n.id in reach_v for n in retn):
+        if any(possible(pc, v) for pc in send_pcs):
             allowed.append(v)
         else:
-            ctx.check(any(n.id in reach_v for n in deln), 'X3',
+            ctx.check(any(possible(pc, v) for pc in giveup_pcs), 'X3',
                       'with retry counter = %d the timer gives up (state := DELETED)' % v,
                       key=('X3', 'no-give-up', v), site=ctx.site(rt, rt.node))
     ctx.check(bool(allowed) and max(allowed) < M + 1 and allowed == list(range(min(allowed), max(allowed) + 1)),
